@@ -72,6 +72,7 @@ type setup struct {
 	srv   *dns.Server
 	conn  net.PacketConn
 	addrs map[string]netip.Addr // source -> address it holds
+	store *storage.MemStorage
 }
 
 // build renders membership (label, inres, infr, inmap) into a real config,
@@ -124,7 +125,7 @@ func build(c *vf.Ctx, label string, inres, infr, inmap bool, spell int) (*setup,
 	if err != nil {
 		return nil, err
 	}
-	return &setup{srv: srv, conn: conn, addrs: map[string]netip.Addr{
+	return &setup{srv: srv, conn: conn, store: store, addrs: map[string]netip.Addr{
 		"internal": config.DefaultAPIAddress, "resolve-config": rAddr, "friend": fAddr, "mapping": mAddr,
 	}}, nil
 }
@@ -340,77 +341,102 @@ func run(c *vf.Ctx) {
 			}
 			client := &mdns.Client{Net: "udp", Timeout: 400 * time.Millisecond}
 			slow := &mdns.Client{Net: "udp", Timeout: 3 * time.Second} // second try of a query that got no reply (a loaded machine must not look like a silent server)
-			for ci, a := range g {
-				for sp := 0; sp < nSpell; sp++ {
-					spell := sp*3 + (ci+sp+li)%3 + sp
-					name := qname(label, a.Tld, spell)
-					q := new(mdns.Msg)
-					q.Id = uint16(1 + ci)
-					q.RecursionDesired = true
-					q.Question = []mdns.Question{{Name: name, Qtype: types[a.Type], Qclass: classes[a.Class]}}
-					if a.Tld == "no-question" {
-						q.Question = nil
-					}
-					o := obs{Ev: "query", Kind: a.Kind, Tld: a.Tld, Type: a.Type, Class: a.Class, InRes: a.InRes, InFr: a.InFr, InMap: a.InMap, QName: name, Label: label}
-					// direct
-					w := &recWriter{}
-					p, pv, _ := vf.NoPanic(func() { s.srv.ServeDNS(w, q) })
-					o.Via = "direct"
-					o.Panic = p
-					_ = pv
-					if len(w.msgs) == 1 {
-						o.Rcode = rcodeName(w.msgs[0].Rcode)
-						if w.msgs[0].Rcode == mdns.RcodeSuccess {
-							o.Source, o.AddrOK = judgeReply(w.msgs[0], s)
+			// phases 1 and 2: the stored mappings change while the server runs (the name is mapped / mapped to another
+			// address / not mapped any more); what a source holds is what it holds at the moment of the query
+			inMap := a0.InMap
+			for phase := 0; phase < 3; phase++ {
+				if phase > 0 {
+					if inMap {
+						if err := s.store.DeleteMapping(label + ".myco"); err != nil {
+							c.Fatal("delete mapping: %v", err)
 						}
 					} else {
-						o.Rcode = fmt.Sprintf("replies=%d", len(w.msgs))
-					}
-					if a.Tld == "myco" {
-						ip, src := s.srv.Lookup(strings.TrimSuffix(strings.ToLower(name), "."))
-						o.Lookup = string(src)
-						if want, ok := s.addrs[string(src)]; ok {
-							o.LookupAddrOK = ip == want
+						to := mesh.Identities(8)[5+phase].IP
+						if err := s.store.SaveMapping(label+".myco", to); err != nil {
+							c.Fatal("save mapping: %v", err)
 						}
+						s.addrs["mapping"] = to
 					}
-					c.Eval(1)
-					c.Distinct(fmt.Sprintf("%s/%s/%s/%s/%s/%d", k, label, a.Tld, a.Type, a.Class, spell%9))
-					obsAll = append(obsAll, o)
-					trace = append(trace, o)
-					// over the wire (names must be fully qualified there)
-					if a.Tld == "no-question" && sp > 0 {
-						// one wire probe per case is enough
-					} else if a.Tld == "no-question" {
-						// on the wire: a bare 12-byte header that announces one question
-						// (the server loop hands it to the handler with none)
-						o2 := o
-						o2.Via = "udp-header-only"
-						hdr := []byte{0, byte(1 + ci%250), 1, 0, 0, 1, 0, 0, 0, 0, 0, 0}
-						o2.Rcode = rawExchange(s.conn.LocalAddr().String(), hdr)
-						o2.Source, o2.AddrOK = "", false
-						c.Eval(1)
-						obsAll = append(obsAll, o2)
-						trace = append(trace, o2)
-					} else if strings.HasSuffix(name, ".") && (sp == 0 || c.Thorough()) && udpErrs < 12 {
-						o2 := o
-						o2.Via = "udp"
-						r, _, err := client.Exchange(q, s.conn.LocalAddr().String())
-						if err != nil {
-							r, _, err = slow.Exchange(q, s.conn.LocalAddr().String())
+					inMap = !inMap
+				}
+				for ci, a := range g {
+					for sp := 0; sp < nSpell; sp++ {
+						if phase > 0 && sp != phase {
+							continue
 						}
-						if err != nil {
-							o2.Rcode = "error:" + err.Error()
-							udpErrs++ // after a dozen queries without any reply the wire probes stop (each costs seconds)
+						a.InMap = inMap
+						spell := sp*3 + (ci+sp+li)%3 + sp
+						name := qname(label, a.Tld, spell)
+						q := new(mdns.Msg)
+						q.Id = uint16(1 + ci)
+						q.RecursionDesired = true
+						q.Question = []mdns.Question{{Name: name, Qtype: types[a.Type], Qclass: classes[a.Class]}}
+						if a.Tld == "no-question" {
+							q.Question = nil
+						}
+						o := obs{Ev: "query", Kind: a.Kind, Tld: a.Tld, Type: a.Type, Class: a.Class, InRes: a.InRes, InFr: a.InFr, InMap: a.InMap, QName: name, Label: label}
+						// direct
+						w := &recWriter{}
+						p, pv, _ := vf.NoPanic(func() { s.srv.ServeDNS(w, q) })
+						o.Via = "direct"
+						o.Panic = p
+						_ = pv
+						if len(w.msgs) == 1 {
+							o.Rcode = rcodeName(w.msgs[0].Rcode)
+							if w.msgs[0].Rcode == mdns.RcodeSuccess {
+								o.Source, o.AddrOK = judgeReply(w.msgs[0], s)
+							}
 						} else {
-							o2.Rcode = rcodeName(r.Rcode)
-							o2.Source, o2.AddrOK = "", false
-							if r.Rcode == mdns.RcodeSuccess {
-								o2.Source, o2.AddrOK = judgeReply(r, s)
+							o.Rcode = fmt.Sprintf("replies=%d", len(w.msgs))
+						}
+						if a.Tld == "myco" {
+							ip, src := s.srv.Lookup(strings.TrimSuffix(strings.ToLower(name), "."))
+							o.Lookup = string(src)
+							if want, ok := s.addrs[string(src)]; ok {
+								o.LookupAddrOK = ip == want
 							}
 						}
 						c.Eval(1)
-						obsAll = append(obsAll, o2)
-						trace = append(trace, o2)
+						c.Distinct(fmt.Sprintf("%s/%s/%s/%s/%s/%d/%d", k, label, a.Tld, a.Type, a.Class, spell%9, phase))
+						obsAll = append(obsAll, o)
+						trace = append(trace, o)
+						// over the wire (names must be fully qualified there)
+						if phase > 0 {
+							// the wire path was probed in phase 0
+						} else if a.Tld == "no-question" && sp > 0 {
+							// one wire probe per case is enough
+						} else if a.Tld == "no-question" {
+							// on the wire: a bare 12-byte header that announces one question
+							// (the server loop hands it to the handler with none)
+							o2 := o
+							o2.Via = "udp-header-only"
+							hdr := []byte{0, byte(1 + ci%250), 1, 0, 0, 1, 0, 0, 0, 0, 0, 0}
+							o2.Rcode = rawExchange(s.conn.LocalAddr().String(), hdr)
+							o2.Source, o2.AddrOK = "", false
+							c.Eval(1)
+							obsAll = append(obsAll, o2)
+							trace = append(trace, o2)
+						} else if strings.HasSuffix(name, ".") && (sp == 0 || c.Thorough()) && udpErrs < 12 {
+							o2 := o
+							o2.Via = "udp"
+							r, _, err := client.Exchange(q, s.conn.LocalAddr().String())
+							if err != nil {
+								r, _, err = slow.Exchange(q, s.conn.LocalAddr().String())
+							}
+							if err != nil {
+								o2.Rcode = "error:" + err.Error()
+								udpErrs++ // after a dozen queries without any reply the wire probes stop (each costs seconds)
+							} else {
+								o2.Rcode = rcodeName(r.Rcode)
+								o2.Source, o2.AddrOK = "", false
+								if r.Rcode == mdns.RcodeSuccess {
+									o2.Source, o2.AddrOK = judgeReply(r, s)
+								}
+							}
+							c.Eval(1)
+							obsAll = append(obsAll, o2)
+							trace = append(trace, o2)
+						}
 					}
 				}
 			}
